@@ -225,6 +225,8 @@ type ParamSpec struct {
 	SigAlgo       int
 	// Via: direct (struct literal) | env (through csr.NewReqParam)
 	Via string
+	// NilAttrs (direct only): the parameters carry no client attributes at all.
+	NilAttrs bool
 }
 
 // BuildParam constructs the request parameters either directly or through NewReqParam.
@@ -243,6 +245,10 @@ func BuildParam(s ParamSpec) (*csr.ReqParam, error) {
 		return csr.NewReqParam(func(k string) string { return env[k] }, func() []string {
 			return []string{"gensign", "-c", "/usr/bin/gensign " + s.Policy + " " + regular.HandlerName}
 		})
+	}
+	if s.NilAttrs {
+		return &csr.ReqParam{NamespacePolicy: common.NamespacePolicy(s.Policy), HandlerName: regular.HandlerName, ClientIP: s.ClientIP, LogName: s.LogName,
+			ReqUser: s.ReqUser, ReqHost: s.ReqHost, TransID: s.TransID}, nil
 	}
 	return &csr.ReqParam{
 		NamespacePolicy: common.NamespacePolicy(s.Policy), HandlerName: regular.HandlerName, ClientIP: s.ClientIP, LogName: s.LogName,
